@@ -1036,6 +1036,10 @@ def sc_stack(P):
     out.append(('three arrays', lambda: ([two() + [arr_of(P, 'C', xy)]], {'axis': 'k', 'keys': ['p', 'q', 'r']}, O())))
     out.append(('second array with permuted dimensions', lambda: ([[arr_of(P, 'A', xy), arr_of(P, 'B', yx)]], {'axis': 'k', 'keys': ['p', 'q']}, O())))
     out.append(('first array with permuted dimensions', lambda: ([[arr_of(P, 'A', yx), arr_of(P, 'B', xy)]], {'axis': 'k', 'keys': ['p', 'q']}, O())))
+    xyz, yzx, zxy = [('x', 2), ('y', 3), ('z', 4)], [('y', 3), ('z', 4), ('x', 2)], [('z', 4), ('x', 2), ('y', 3)]
+    out.append(('3-d, second array with rotated dimensions', lambda: ([[arr_of(P, 'A', xyz), arr_of(P, 'B', yzx)]], {'axis': 'k', 'keys': ['p', 'q']}, O())))
+    out.append(('3-d, second and third array with rotated dimensions', lambda: ([[arr_of(P, 'A', xyz), arr_of(P, 'B', yzx), arr_of(P, 'C', zxy)]], {'axis': 'k', 'keys': ['p', 'q', 'r']}, O())))
+    out.append(('3-d, first array with rotated dimensions', lambda: ([[arr_of(P, 'A', zxy), arr_of(P, 'B', xyz)]], {'axis': 'k', 'keys': ['p', 'q']}, O())))
     out.append(('different labels along y, no align', lambda: ([[arr_of(P, 'A', xy), arr_of(P, 'B', xy, {'y': 'L_y2'})]], {'axis': 'k', 'keys': ['p', 'q']}, O())))
     out.append(('different single labels along a size-1 axis, no align', lambda: ([[arr_of(P, 'A', [('x', 1)]), arr_of(P, 'B', [('x', 1)], {'x': 'L_x2'})]], {'axis': 'k', 'keys': ['p', 'q']}, O())))
     out.append(('different dimension sets', lambda: ([[arr_of(P, 'A', xy), arr_of(P, 'B', [('x', 2)])]], {'axis': 'k', 'keys': ['p', 'q']}, O())))
@@ -1067,6 +1071,10 @@ def sc_concatenate(P):
     out.append(('second array with permuted dimensions', lambda: ([[A(xy), B(yx)]], {'axis': 'x'}, O())))
     out.append(('first array with permuted dimensions, axis by name', lambda: ([[A(yx), B(xy)]], {'axis': 'x'}, O())))
     out.append(('3-d, second array with permuted secondary dimensions', lambda: ([[A(xyz), B(xzy)]], {'axis': 'x'}, O())))
+    yzx, zxy = [('y', 3), ('z', 4), ('x', 2)], [('z', 4), ('x', 2), ('y', 3)]
+    out.append(('3-d, second array with rotated dimensions', lambda: ([[A(xyz), B(yzx)]], {'axis': 'x'}, O())))
+    out.append(('3-d, second array with rotated dimensions, along y', lambda: ([[A(xyz), arr_of(P, 'B', zxy, {'y': 'L_yB'})]], {'axis': 'y'}, O())))
+    out.append(('3-d, first array with rotated dimensions, axis by name', lambda: ([[A(zxy), B(xyz)]], {'axis': 'x'}, O())))
     out.append(('secondary labels differ, no align', lambda: ([[A(xy), B(xy, {'y': 'L_y2'})]], {'axis': 'x'}, O())))
     out.append(('secondary labels differ, _no_check', lambda: ([[A(xy), B(xy, {'y': 'L_y2'})]], {'axis': 'x', '_no_check': True}, O())))
     out.append(('secondary labels differ, align=True', lambda: ([[A(xy), B(xy, {'y': 'L_y2'})]], {'axis': 'x', 'align': True},
